@@ -2,6 +2,7 @@ mod common;
 mod fswalk;
 mod model;
 mod props_algebra;
+mod props_capture;
 mod props_fs;
 mod props_lang;
 mod props_links;
@@ -34,6 +35,8 @@ fn replay(prop: &str, file: &str) -> i32 {
             "family" => props_algebra::replay_family(&case),
             "lang" => props_lang::replay_lang(&case),
             "rules" => props_rules::replay_rules(&case),
+            "captures" => props_capture::replay_captures(&case),
+            "routes" => props_capture::replay_routes(&case),
             "total" => props_total::replay_total(&case),
             "spans" => props_total::replay_spans(&case),
             "walk" => props_fs::replay_walk(&case, prop),
@@ -142,6 +145,8 @@ fn main() {
         "C20-worker" => props_links::c20_worker(tier),
         "C13" => props_stack::c13_c16(tier, "C13"),
         "C16" => props_stack::c13_c16(tier, "C16"),
+        "C04" => props_capture::c04(tier),
+        "C19" => props_capture::c19(tier),
         "C05" => props_total::c05(tier),
         "C05-case" => props_total::c05_case_worker(),
         "C17" => props_total::c17(tier),
